@@ -219,6 +219,74 @@ PLANS["C15"] = {
 }
 
 
+C08_ALPHA = REWRITE + ("amend", "reset_keep", "stash")
+PLANS["C08"] = {
+    "clauses": ["C08_NoTranscript", "C08_Masked"],
+    "quick": [
+        dict(name="default", consts=consts(alphabet=C08_ALPHA, steps=8, commits=6, uid=4, lines=4, sessions=("S1",)),
+             invariants=[], budget=130, variants=RENDERS[:2], storage="default", per_tag=1),
+        dict(name="local", consts=consts(alphabet=C08_ALPHA, steps=8, commits=6, uid=4, lines=4, sessions=("S1",)),
+             invariants=[], budget=100, variants=RENDERS[:2], storage="local", per_tag=1),
+        dict(name="notes", consts=consts(alphabet=C08_ALPHA, steps=8, commits=6, uid=4, lines=4, sessions=("S1",)),
+             invariants=[], budget=100, variants=RENDERS[:2], storage="notes", per_tag=1),
+        dict(name="partial-default", consts=consts(alphabet=PARTIAL, steps=5, commits=3, lines=3), invariants=[],
+             budget=80, variants=RENDERS[:2], storage="default"),
+    ],
+    "thorough": [
+        dict(name=st, consts=consts(alphabet=C08_ALPHA + ("edit_del",), steps=9, commits=7, uid=5, lines=4,
+                                    sessions=("S1", "S2")), invariants=[], budget=900, variants=RENDERS, storage=st,
+             per_tag=1, timeout=3000, workers=12) for st in ("default", "local", "notes")
+    ] + [
+        dict(name="partial-" + st, consts=consts(files=("f", "g"), alphabet=PARTIAL, steps=6, commits=3, lines=3),
+             invariants=[], budget=400, variants=RENDERS, storage=st, timeout=2400) for st in ("default", "local", "notes")
+    ],
+}
+
+
+PLANS["C09"] = {
+    "clauses": ["C09_Overlay", "C09_Formats"],
+    "quick": [
+        dict(name="blame", consts=consts(files=("f", "g"), alphabet=("edit_ins", "edit_del", "edit_mod", "ckpt",
+                                                                     "commit_all", "mv"),
+                                         steps=7, commits=4, uid=4, lines=4, sessions=("S1",)), invariants=[],
+             budget=200, variants=[("plain", "plain"), ("plain", "spaces"), ("crlf", "unicode")], per_tag=1,
+             extra={"blamefmt": True}),
+        dict(name="rewrite", consts=consts(alphabet=REWRITE + ("amend",), steps=9, commits=7, uid=5, lines=5,
+                                           sessions=("S1",)), invariants=[], budget=100,
+             variants=[("plain", "plain"), ("plain", "quoted")], per_tag=1, extra={"blamefmt": True}),
+    ],
+    "thorough": [
+        dict(name="blame", consts=consts(files=("f", "g"), alphabet=("edit", "ckpt", "commit_all", "mv"),
+                                         steps=8, commits=5, uid=5, lines=4), invariants=[], budget=1200,
+             variants=RENDERS, per_tag=1, extra={"blamefmt": True}, timeout=3000, workers=12),
+        dict(name="rewrite", consts=consts(files=("f", "g"), alphabet=REWRITE + ("amend", "mv"), steps=10, commits=7,
+                                           uid=5, lines=4, sessions=("S1",)), invariants=[], budget=800,
+             variants=RENDERS, per_tag=1, extra={"blamefmt": True}, timeout=3000, workers=12),
+    ],
+}
+PLANS["C19"] = {
+    "clauses": ["C19_Stats"],
+    "quick": [
+        dict(name="partial", consts=consts(files=("f", "g"), alphabet=PARTIAL, steps=5, commits=3, uid=5, lines=3),
+             invariants=[], budget=200, variants=RENDERS[:3], extra={"stats": True}),
+        dict(name="rewrite", consts=consts(alphabet=REWRITE + ("amend",), steps=9, commits=7, uid=5, lines=5,
+                                           sessions=("S1",)), invariants=[], budget=100, variants=RENDERS[:2],
+             per_tag=1, extra={"stats": True}),
+        dict(name="unborn", consts=consts(alphabet=EDIT_COMMIT, steps=5, init="unborn", uid=4), invariants=[],
+             budget=60, variants=RENDERS[:2], extra={"stats": True}),
+    ],
+    "thorough": [
+        dict(name="partial", consts=consts(files=("f", "g"), alphabet=PARTIAL, steps=6, commits=3, uid=5, lines=3),
+             invariants=[], budget=1500, variants=RENDERS, extra={"stats": True}, timeout=3000),
+        dict(name="rewrite", consts=consts(alphabet=REWRITE + ("amend", "edit_del"), steps=10, commits=7, uid=6,
+                                           lines=5), invariants=[], budget=1000, variants=RENDERS, per_tag=1,
+             extra={"stats": True}, timeout=3000, workers=12),
+        dict(name="unborn", consts=consts(files=("f", "g"), alphabet=EDIT_COMMIT, steps=6, init="unborn", uid=5),
+             invariants=[], budget=300, variants=RENDERS, extra={"stats": True}, timeout=2400),
+    ],
+}
+
+
 def _core(pid, tier, seed):
     return core_check.run_core(pid, tier, seed, PLANS[pid])
 
